@@ -176,13 +176,19 @@ def compare(res, case, algo, m_all, m_any):
                 ok = False
                 break
     ka = keys(asols)
-    if len(ka) > 1 or (not ka) != (not m_all["sols"]) or not set(ka) <= set(keys(m_all["sols"])) \
-            or (ka and acost != m_all["cost"]):
+    # `any` is a member of `all` (and has its cost) only inside the coherent region (C05_any_mem_spfs needs
+    # spe + 2*sloss <= dup + 2*floss; outside it the real code and the model both return an `any` solution that
+    # is NOT in `all`, cf. C05_any_incoherent_witness) -- and this stream deliberately contains incoherent cost
+    # vectors.  Outside the region only cardinality / emptiness (C05_any_card_spfs, _empty_iff_spfs) are compared.
+    from .. import gen
+    coh = gen.coherent(solvers.full_costs(case), plain=False)
+    if len(ka) > 1 or (not ka) != (not m_all["sols"]) \
+            or (coh and (not set(ka) <= set(keys(m_all["sols"])) or (ka and acost != m_all["cost"]))):
         res.tie_broken(f"{tag}: 'any' result is not one member of the model's 'all' result", info,
                        {"n": len(m_all["sols"]), "cost": m_all["cost"]}, {"n": len(ka), "cost": acost})
         ok = False
     if len(m_any["sols"]) > 1 or (not m_any["sols"]) != (not m_all["sols"]) \
-            or not set(keys(m_any["sols"])) <= set(keys(m_all["sols"])):
+            or (coh and not set(keys(m_any["sols"])) <= set(keys(m_all["sols"]))):
         res.tie_broken(f"{tag}: the model's 'any' result is not one member of its 'all' result", info)
         ok = False
     return ok
@@ -222,29 +228,51 @@ def cases_for(ctx):
     return out
 
 
-def available(res):
+PROBES = [
+    {"S": [[], []], "O": [{"s": "0", "f": [0]}, {"s": "1", "f": [0]}],
+     "costs": {"spe": 0, "dup": 1, "hgt": 1, "floss": 1, "sloss": 1}},
+    {"S": [[[], []], []], "O": [[{"s": "00", "f": [0, 1]}, {"s": "1", "f": [1]}], {"s": "01", "f": [0]}],
+     "costs": {"spe": 1, "dup": 1, "hgt": 1, "floss": 1, "sloss": 1}},
+]
+
+
+def available(ctx, res):
     """The table-level tie looks INSIDE the implementation (`_compute_spfs_table`, its arguments and the layout
-    of its table).  If those internals were refactored away (hook / call / structure fails on a trivial input)
-    the tie is unavailable: a note, not an alarm — the public-API correspondence of the C02 check still decides."""
+    of its private table).  Self-test on fixed probe inputs: if the hook fails, is never called, OR the
+    canonicalised real tables differ from the model's there, the internals were refactored: the tie is
+    unavailable — a note, not an alarm; the public-API correspondence of the C02 check still decides."""
+    from ..common import Result
+
     try:
-        tables, _, _, _ = real_tables({"S": [[], []], "O": [{"s": "0", "f": [0]}, {"s": "1", "f": [0]}],
-                                       "costs": {"spe": 0, "dup": 1, "hgt": 1, "floss": 1, "sloss": 1}},
-                                      "ext_spfs", "all")
-        if not tables:
-            raise RuntimeError("_compute_spfs_table was not called")
+        reqs = []
+        for c in PROBES:
+            lc = lean_case(c)
+            for a in ALGOS:
+                reqs += [{"op": "c02_spfscode", "algo": a, "policy": "all", **lc},
+                         {"op": "c02_spfscode", "algo": a, "policy": "any", **lc}]
+        outs = iter(ctx.driver.parallel(reqs))
+        scratch = Result()
+        for c in PROBES:
+            tables, _, _, _ = real_tables(c, "ext_spfs", "all")
+            if not tables:
+                raise RuntimeError("_compute_spfs_table was not called")
+            for a in ALGOS:
+                compare(scratch, c, a, next(outs), next(outs))
+        if scratch.mismatch:
+            raise RuntimeError("probe: " + scratch.mismatch[0]["relation"])
         return True
     except Exception as e:  # noqa
-        res.notes.append(f"table-level tie (c02_code) unavailable: internals changed ({type(e).__name__}: {str(e)[:120]})")
+        res.notes.append(f"table-level tie (c02_code) unavailable: internals changed ({type(e).__name__}: {str(e)[:160]})")
         res.dist["code-table tie unavailable"] += 1
         return False
 
 
 def run_code(ctx, res):
-    if available(res):
+    if available(ctx, res):
         check_cases(ctx, res, cases_for(ctx))
 
 
 def corpus_code(ctx, res, corpus):
-    if not available(res):
+    if not available(ctx, res):
         return
     check_cases(ctx, res, [c for c in corpus if any("f" in l for _, l in solvers._leaves(c["O"]))])
